@@ -97,6 +97,24 @@ def specs(tier, seed):
                              "fragsize": [None, 100, 300][(i // 3) % 3]},
                     "relay": {}, "pkts": [[300, "S", "C0", "rand", 200], [600, "C0", "S", "rand", 200], [2000, "S", "C0", "text", 700]],
                     "dur_ms": 12000, "label": "stale%d" % i})
+    # false acknowledgement at the upstream sequence-number wrap: seven small upstream packets (seq 1..7), then a crafted
+    # multi-fragment one (seq 0) whose image carries a complete zlib stream of a never-offered frame at the start of its
+    # second fragment.  A downstream packet completes at the client while the query with fragment 0 is still on its way
+    # (the path holds it back: it is overtaken by whatever the client sends next).  Only the client's ack matching keeps
+    # it from sending fragment 1 before the server has fragment 0.
+    for i in range(12 if tier == "quick" else 96):
+        T = 400 + 7 * 300
+        b = [-0.8, -0.3, 0.0, 0.5, -2.0, 0.9][i % 6]
+        hold = [4000, 30000, 200000, 700000][(i // 2) % 4]
+        lazy = 0 if i % 6 == 5 else 1
+        pk = [[400 + 300 * j, "C0", "S", "text", 30 + j] for j in range(7)] + \
+            [[T, "S", "C0", ["rand", "text", "zero"][i % 3], 40 + 30 * (i % 4)], [T + b, "C0", "S", "embedfit:1", 300],
+             [T + 3000, "C0", "S", "rand", 50], [T + 3500, "S", "C0", "rand", 300]]
+        out.append({"seed": seed * 100000 + 99000 + i,
+                    "sess": {"qtype": ["NULL", "TXT", "CNAME", "SRV"][(i // 3) % 4], "lazy": lazy,
+                             "maxlen": [None, 200, 120][(i // 4) % 3]},
+                    "relay": {"hold_up": [{"useq": 0, "ufrag": 0, "delay_us": hold, "count": 1}]}, "pkts": pk,
+                    "dur_ms": 15000, "label": "upwrap%d" % i})
     return common.fit_frag(out)
 
 
